@@ -1,12 +1,15 @@
 package main
 
 import (
+	"verif/harness/internal/c10"
 	"verif/harness/internal/c17"
 	"verif/harness/internal/c19"
 	"verif/harness/internal/c20"
 )
 
 func init() {
+	checks["C10"] = c10.Run
+	workers["c10"] = c10.Worker
 	checks["C17"] = c17.Run
 	workers["c17"] = c17.Worker
 	checks["C19"] = c19.Run
